@@ -274,7 +274,13 @@ func GenKeyID(r *mrand.Rand) (text, kind string) {
 		}
 		return s
 	}
-	switch r.Intn(18) {
+	switch r.Intn(20) {
+	case 18: // near miss: a complete YSSHCA object followed by something else (a second document, text, a stray bracket)
+		return marshal(base()) + core.Pick(r, "x", " x", "{}", marshal(base()), "\n# renewed 2026-09", ",", "]", " null", "\x00"), "near-trailing-data"
+	case 19: // a YSSHCA object surrounded by white space is still one
+		k := base()
+		k.TouchPolicy = keyid.NeverTouch
+		return core.Pick(r, "", " ", "\n") + marshal(k) + core.Pick(r, " ", "\n", "\t \r\n"), "ysshca-whitespace-around"
 	case 16, 17: // near miss: a required field is missing but its quoted NAME still occurs in the text (as a value, a principal, a nested key)
 		var m map[string]json.RawMessage
 		json.Unmarshal([]byte(marshal(base())), &m)
